@@ -117,8 +117,9 @@ def complete_phase(ctx: Ctx):
     ctx.require(n_pick >= 1 and n_drop >= 1, "complete_trip_phase: pickup/dropoff branches not found")
 
 
-def trip_end_tables(ctx: Ctx, clause: str = "D4"):
-    """ServicingTrip.exit succeeds iff len(route) == 0, and its terminal condition is the same predicate."""
+def trip_end_tables(ctx: Ctx, clause: str = "D4", lenient: bool = False):
+    """ServicingTrip.exit succeeds iff len(route) == 0, and its terminal condition is the same predicate. lenient=True (C07):
+    any non-refusing, non-failing result counts as leaving (what exit does besides deciding is not a location matter)."""
     repo = ctx.repo
     sc = states.state_class(repo, "ServicingTrip")
     fn = sc.exit
@@ -126,7 +127,7 @@ def trip_end_tables(ctx: Ctx, clause: str = "D4"):
     def label(p):
         if p.kind != "return":
             return p.kind
-        return {"ok": "leave", "reject": "refuse", "error": "error"}.get(flow.classify_result(p.value), "other")
+        return {"ok": "leave", "reject": "refuse", "error": "error"}.get(flow.classify_result(p.value), "leave" if lenient else "other")
 
     rows = cmp.path_table(flow.paths(fn.node), {"len(self.route)": "n"}, label, grid=range(0, 4))
     bad = cmp.compare_table(rows, lambda g, f: "leave" if g["n"] == 0 else "refuse")
